@@ -323,11 +323,20 @@ def row_wellcond(row, plane, line, s):
     return v_norm(inplane) >= 0.3 * s
 
 
-def gen_rows3(rng, rows, N, plane, line, s, R):
+def gen_rows3(rng, rows, N, plane, line, s, R, flat=False):
+    """flat: the three plane points of every row share one z and run counter-clockwise seen from +z - the plane is already the
+    X-Y plane, its normal exactly (0, 0, 1) (2-D key points lifted to 3-D)"""
     data = []
     for _ in range(rows):
         for attempt in range(200):
             row = [[r32(rng.uniform(-4, 4) * s) for _ in range(3)] for _ in range(N)]
+            if flat:
+                z0 = r32(rng.choice([0.0, 0.0, 1.0, rng.uniform(-4, 4) * s]))
+                for k in plane:
+                    row[k][2] = z0
+                a, b, c = (row[k] for k in plane)
+                if (b[0] - a[0]) * (c[1] - a[1]) - (b[1] - a[1]) * (c[0] - a[0]) < 0:
+                    row[plane[1]], row[plane[2]] = row[plane[2]], row[plane[1]]
             if row_wellcond(row, plane, line, s) and row_wellcond([apply_R(R, p) for p in row], plane, line, s):
                 break
         data += [x for p in row for x in p]
@@ -349,7 +358,8 @@ def gen_norm3d(rng):
     l2 = rng.choice([k for k in range(N) if k != l1])
     line = [l1, l2]
     R = rand_rotation(rng)
-    data = gen_rows3(rng, F * P, N, plane, line, s, R)
+    flat = rng.random() < 0.15
+    data = gen_rows3(rng, F * P, N, plane, line, s, R, flat=flat)
     mcls = rng.choice(["full", "full", "some", "some", "refs-some"])
     mask = gen_mask(rng, F, P, N, "full" if mcls == "full" else "some")
     if mcls == "some":
